@@ -86,8 +86,18 @@ def gen_args(rng, cls):
     return a
 
 
+SPECIALS = {}        # filled by run() from the translator's table: {cls: {param: [default, pre-seeded literal]}}
+
+
 def gen_op(rng, cls, p, obj_state=None):
-    """(prop, value); ~12 % deliberately invalid; range setters stay mostly consistent with the other bound"""
+    """(prop, value); ~12 % deliberately invalid; ~12 % the value the property already has ("set to the same value
+    again"); ~12 % a constructor default / pre-seeded literal; range setters stay mostly consistent with the other bound"""
+    if p != 'polarization':
+        u = rng.random()
+        if u < 0.12 and obj_state is not None and p in obj_state:
+            return p, obj_state[p]
+        if u < 0.24 and SPECIALS.get(cls, {}).get(p):
+            return p, rng.choice(SPECIALS[cls][p])
     if p == 'polarization':
         v = [rng.uniform(-1, 1), rng.uniform(-1, 1), rng.uniform(-1, 1)]
         if rng.random() < 0.1:
@@ -102,6 +112,15 @@ def gen_op(rng, cls, p, obj_state=None):
         lo = obj_state['min_wavelength']
         return p, rng.choice([lo + rng.uniform(0.01, 20.0), lo - 1.0, lo])
     return p, gen_value(rng, cls, p)
+
+
+def specialise(rng, cls, args):
+    """with probability 0.3 move one constructor argument to its documented default / the pre-seeded literal"""
+    cand = [p for p in args if SPECIALS.get(cls, {}).get(p)]
+    if cand and rng.random() < 0.3:
+        p = rng.choice(cand)
+        args[p] = rng.choice(SPECIALS[cls][p])
+    return args
 
 
 def gen_points(rng, cls, args):
@@ -386,6 +405,89 @@ def tiling_violation(segs, r, L):
 
 
 # ------------------------------------------------------------------------------------------- the streams
+# ---------------------------------------------------------------- default / pre-seeded values, closed forms
+def special_values(table):
+    """{cls: {param: [values]}} — the documented constructor default of every argument and the literal the constructor
+    pre-seeds the private field with (`self._x = 0.1` before `self.x = x`); and {cls: {param: default}}"""
+    sp, dflt = {}, {}
+    for k in table['classes']:
+        cls = k['name']
+        sp[cls], dflt[cls] = {}, {}
+        own = {}
+        for s_ in k['setters']:
+            if s_['writes']:
+                own[s_['writes'][0][0]] = s_['prop']
+        for n, d in k.get('ctorDefaults', {}).items():
+            try:
+                v = float(d)
+            except ValueError:
+                continue
+            dflt[cls][n] = v
+            sp[cls].setdefault(n, [])
+            if v not in sp[cls][n]:
+                sp[cls][n].append(v)
+        for o in k['ctor']:
+            if o[0] == 'init' and o[1] in own:
+                v = o[2][0] / 10.0 ** o[2][1]
+                sp[cls].setdefault(own[o[1]], [])
+                if v not in sp[cls][own[o[1]]]:
+                    sp[cls][own[o[1]]].append(v)
+    return sp, dflt
+
+
+def _npdf(x, mu, s):
+    return math.exp(-0.5 * ((x - mu) / s) ** 2) / (s * math.sqrt(2 * math.pi))
+
+
+def closed_form(cls, g, x, y, z):
+    """energy density from the class documentation (normalisation × unit-integral normal densities with the stated
+    standard deviations; sigma_z = pulse_length * c for the trivariate pulse); None where the documentation leaves a
+    convention open (Gaussian beam: Rayleigh range)"""
+    if cls == 'UniformEnergyDensity':
+        return g['energy_density']
+    if cls == 'ConstantBivariateGaussian':
+        return g['pulse_energy'] / (C_LIGHT * g['pulse_length']) * _npdf(x, 0.0, g['stddev_x']) * _npdf(y, 0.0, g['stddev_y'])
+    if cls == 'TrivariateGaussian':
+        return g['pulse_energy'] * _npdf(x, 0.0, g['stddev_x']) * _npdf(y, 0.0, g['stddev_y']) * _npdf(z, g['mean_z'], g['pulse_length'] * C_LIGHT)
+    return None
+
+
+def closed_form_violation(cls, ob, pts):
+    """None, or a description of the first point where the observed energy density is not the documented closed form
+    of the parameters the object reports"""
+    if cls not in PROFILES or _broken_obs(ob):
+        return None
+    g = ob['getters']
+    for pt, val in zip(pts, ob['dens']):
+        want = closed_form(cls, g, *pt)
+        if want is None:
+            return None
+        if not close(val, want, 1e-9, 1e-300):
+            return 'get_energy_density%r = %r, closed form of the reported parameters %r' % (tuple(pt), val, want)
+    return None
+
+
+def ctor_culprits(ctx, cls, args, pts, sp):
+    """which constructor arguments must sit at a default / pre-seeded value for the freshly constructed object to
+    miss its closed form (greedy shrink; used only to make the signature name the input class)"""
+    def fails(a):
+        st_, o_ = call(construct, cls, a)
+        return st_ == 'ok' and closed_form_violation(cls, observe(o_, cls, pts), pts) is not None
+    cur = dict(args)
+    special = [p_ for p_ in PARAMS[cls] if cur.get(p_) in sp.get(cls, {}).get(p_, [])]
+    for p_ in list(special):
+        trial = dict(cur)
+        for _ in range(20):
+            v_ = gen_value(ctx.rng, cls, p_)
+            if v_ not in sp[cls].get(p_, []):
+                break
+        trial[p_] = v_
+        if fails(trial):
+            cur = trial
+            special.remove(p_)
+    return special
+
+
 class Stream:
     """collects driver lines and the callbacks that judge the corresponding output lines"""
 
@@ -406,10 +508,12 @@ class _Listener:
         self.n += 1
 
 
-def run_history(ctx, st, cls, args, ops, pts, record, pol=None):
-    """construct, apply ops; K lines for the model; S: fresh-object oracle after every op.  Returns nothing."""
+def run_history(ctx, st, cls, args, ops, pts, record, pol=None, omit=(), sp=None):
+    """construct (arguments in `omit` are left to their defaults; the model still gets the documented value), apply ops;
+    K lines for the model; S: fresh-object, closed-form, atomicity, notification oracles after every op."""
     rng = ctx.rng
-    status, obj = call(construct, cls, args, pol)
+    sp = sp or SPECIALS
+    status, obj = call(construct, cls, {k_: v_ for k_, v_ in args.items() if k_ not in omit}, pol)
     st.add([new_line(cls, args)], lambda o, s=status: None if o[0] == s else 'constructor model=%s impl=%s' % (o[0], s),
            'history:' + cls, dict(cls=cls, args=args))
     if status != 'ok':
@@ -473,6 +577,19 @@ def run_history(ctx, st, cls, args, ops, pts, record, pol=None):
             continue
         fo = observe(fresh, cls, pts)
         d = same_obs(ob, fo, cls)
+        cf_obj = closed_form_violation(cls, ob, pts)
+        cf_fresh = closed_form_violation(cls, fo, pts)
+        if (cf_fresh is not None and cf_obj is None) or (cf_obj is not None and d is None and (p is None or consistent)):
+            # the object built by the *constructor* from these parameters misses the documented density (the one reached
+            # through setters may be right): name the constructor arguments that have to sit at a default / pre-seeded value
+            who = ctor_culprits(ctx, cls, fargs, pts, sp)
+            if cf_obj is not None and d is None and p is not None and not who:
+                ctx.fail('C18:%s:set(%s)->energy_density!=closed-form' % (cls, p), '%s after %r: %s' % (cls, done, cf_obj), rep)
+            else:
+                ctx.fail('C18:%s:ctor[%s]->energy_density!=closed-form' % (cls, ','.join('%s@default/pre-seed' % w for w in who)),
+                         '%s(**%r): %s' % (cls, fargs, cf_fresh or cf_obj), dict(kind='history', cls=cls, args=fargs, pol=None, ops=[], points=pts))
+            consistent = d is None
+            continue
         if d is not None:
             if consistent:
                 ctx.fail('C18:%s:set(%s)->stale(%s)' % (cls, p, d),
@@ -496,7 +613,7 @@ def histories(ctx, st, record):
         if depth == 3:
             seqs += list(itertools.product(props, repeat=3))
         for seq in seqs:
-            args = gen_args(rng, cls)
+            args = specialise(rng, cls, gen_args(rng, cls))
             state = dict(args)
             ops = []
             for p in seq:
@@ -509,7 +626,7 @@ def histories(ctx, st, record):
         ctx.count('sequences:' + cls, len(seqs))
         # longer random histories
         for _ in range(ctx.n(40, 1200)):
-            args = gen_args(rng, cls)
+            args = specialise(rng, cls, gen_args(rng, cls))
             state = dict(args)
             ops = []
             for _ in range(rng.randint(4, 9)):
@@ -633,12 +750,178 @@ def spectra_stream(ctx, st, record, table=None):
             ctx.case(key=('specg', f2b(lo), f2b(hi), n, f2b(mean), f2b(sd)), sample=rep if rng.random() < 0.02 else None)
 
 
+def defaults_stream(ctx, st, record, dflt):
+    """constructor cases at the documented defaults and at the literals the constructor pre-seeds its private fields
+    with: all defaults (arguments omitted), every argument omitted on its own, every argument passed explicitly at each
+    special value, all arguments at their pre-seeded literals; each followed by nothing / "set to the same value again" /
+    "set to another value and back".  The model is always given the explicit values."""
+    rng = ctx.rng
+    for cls in PROFILES + SPECTRA:
+        sp = SPECIALS.get(cls, {})
+        d = dflt.get(cls, {})
+        params = PARAMS[cls]
+        cases = []
+        if d and all(p in d for p in params):
+            cases.append((dict((p, d[p]) for p in params), tuple(params), 'all-defaults'))
+        for p in params:
+            if p in d:
+                a = gen_args(rng, cls); a[p] = d[p]
+                cases.append((a, (p,), 'omitted:' + p))
+            for v in sp.get(p, []):
+                a = gen_args(rng, cls); a[p] = v
+                cases.append((a, (), 'explicit:%s' % p))
+        if sp:
+            a = gen_args(rng, cls)
+            for p in params:
+                if sp.get(p):
+                    a[p] = sp[p][-1]          # the pre-seeded literal (last collected), else the default
+            cases.append((a, (), 'all-pre-seeded'))
+        if cls in SPECTRA:
+            cases.append((gen_args(rng, cls), (), 'spectrum'))
+        for a, omit, kind in cases:
+            pts = gen_points(rng, cls, a)
+            tests = [[]]
+            for p in params:
+                tests.append([(p, a[p])])                                        # same value again
+                if cls in SPECTRA and p in ('min_wavelength', 'max_wavelength'):
+                    other = a[p] + (-0.001 if p == 'min_wavelength' else 0.001)
+                else:
+                    other = gen_value(rng, cls, p)
+                tests.append([(p, other), (p, a[p])])                            # away and back
+            if ctx.tier == 'quick' and len(tests) > 7:
+                tests = [tests[0]] + rng.sample(tests[1:], 6)
+            for ops in tests:
+                run_history(ctx, st, cls, dict(a), ops, pts, record, None, omit)
+            ctx.count('defaults:%s:%s' % (cls, kind.split(':')[0]), len(tests))
+
+
+def attached_play(spec, ops):
+    """spec: list of (cls, args) for the profiles; ops: ('attach', i) | ('set', i, prop, value). Returns None or
+    (index of the first op after which the attached geometry is wrong, description)"""
+    from raysect.optical import World
+    from raysect.primitive import Cylinder
+    from cherab.core import Plasma
+    from cherab.core.laser.node import Laser
+    from cherab.core.model.laser.model import SeldenMatobaThomsonSpectrum
+    C = classes()
+
+    world = World()
+    laser = Laser(parent=world)
+    laser.laser_spectrum = C['ConstantSpectrum'](1059.0, 1061.0, 3)
+    laser.plasma = Plasma(parent=world)
+    profs = [construct(c, a) for c, a in spec]
+    cur = 0
+    laser.laser_profile = profs[0]
+    laser.models = [SeldenMatobaThomsonSpectrum()]
+    for k, op in enumerate([None] + list(ops)):
+        if op is not None:
+            if op[0] == 'attach':
+                laser.laser_profile = profs[op[1]]
+                cur = op[1]
+            else:
+                call(setattr, profs[op[1]], op[2], op[3])
+        prof = profs[cur]
+        segs = []
+        for g in laser.get_geometry():
+            t = g.transform
+            pure = all(t[i, j] == (1.0 if i == j else 0.0) for i in range(4) for j in range(4) if (i, j) != (2, 3))
+            segs.append((float(t[2, 3]), float(g.height), float(g.radius), pure))
+        why = tiling_violation(segs, float(prof.laser_radius), float(prof.laser_length))
+        if why is None and any(g.parent is not laser for g in laser.get_geometry()):
+            why = 'a segment of get_geometry() is not a child of the laser'
+        if why is None:
+            kids = [c for c in laser.children if isinstance(c, Cylinder)]
+            if len(kids) != len(segs):
+                why = 'the laser has %d cylinder children but get_geometry() lists %d' % (len(kids), len(segs))
+        if why is not None:
+            return k - 1, 'current profile %s(laser_length=%r, laser_radius=%r): %s' % (
+                type(prof).__name__, prof.laser_length, prof.laser_radius, why)
+    return None
+
+
+
+def attached_stream(ctx):
+    """S: the geometry clause for a profile *attached to a Laser node* (plasma, spectrum, one Thomson model): after
+    any interleaving of profile setters and `laser.laser_profile = same / other profile`, the primitives of
+    `laser.get_geometry()` tile [0, laser_length] at laser_radius of the profile the laser currently holds, and the
+    laser has no other cylinder children."""
+    rng = ctx.rng
+    play = attached_play
+
+    def kind(op, cur):
+        if op[0] == 'attach':
+            return 'attach-same' if op[1] == cur else 'attach-other'
+        return 'set(%s)%s' % (op[2], '' if op[1] == cur else '@detached')
+
+    def kinds(ops):
+        cur, out = 0, []
+        for op in ops:
+            out.append(kind(op, cur))
+            if op[0] == 'attach':
+                cur = op[1]
+        return out
+
+    def report(spec, ops):
+        bad = play(spec, ops)
+        if bad is None:
+            return
+        ops = list(ops[:bad[0] + 1])
+        changed = True
+        while changed:                       # drop operations that are not needed for the failure
+            changed = False
+            for i in range(len(ops) - 1, -1, -1):
+                trial = ops[:i] + ops[i + 1:]
+                if play(spec, trial) is not None:
+                    ops, changed = trial, True
+        bad = play(spec, ops)
+        sk = [k_.replace('set(laser_radius)', 'set(geometry)').replace('set(laser_length)', 'set(geometry)') for k_ in kinds(ops)][-2:]
+        ctx.fail('C18:Laser:attached(%s)->segments-do-not-tile-current-profile' % '>'.join(sk),
+                 'profiles %r, operations %r: %s' % ([c for c, _ in spec], ops, bad[1]),
+                 dict(kind='attached', spec=[[c, a] for c, a in spec], ops=[list(o) for o in ops]))
+
+    def rnd_set(i, cls):
+        p = rng.choice(['laser_length', 'laser_length', 'laser_radius', 'laser_radius'] + PARAMS[cls])
+        return ('set', i, p, gen_value(rng, cls, p))
+    import itertools
+    # every sequence of up to 3 (quick) / 4 (thorough) operation kinds, then random longer ones
+    alphabet = ['attach-same', 'attach-other', 'set-length', 'set-radius', 'set-length-detached']
+    seqs = [q for n in range(1, 4 if ctx.tier == 'quick' else 5) for q in itertools.product(alphabet, repeat=n)]
+    for q in seqs:
+        spec = [(c, gen_args(rng, c)) for c in (rng.choice(PROFILES), rng.choice(PROFILES))]
+        cur, ops = 0, []
+        for a in q:
+            if a == 'attach-same':
+                ops.append(('attach', cur))
+            elif a == 'attach-other':
+                cur = 1 - cur
+                ops.append(('attach', cur))
+            elif a == 'set-length':
+                ops.append(('set', cur, 'laser_length', gen_value(rng, spec[cur][0], 'laser_length')))
+            elif a == 'set-radius':
+                ops.append(('set', cur, 'laser_radius', gen_value(rng, spec[cur][0], 'laser_radius')))
+            else:
+                ops.append(('set', 1 - cur, 'laser_length', gen_value(rng, spec[1 - cur][0], 'laser_length')))
+        report(spec, ops)
+        ctx.case(key=('attached',) + q, sample=dict(profiles=[c for c, _ in spec], ops=ops) if rng.random() < 0.02 else None)
+    ctx.count('attached:enumerated', len(seqs))
+    for _ in range(ctx.n(60, 1500)):
+        n = rng.randint(2, 3)
+        spec = [(c, gen_args(rng, c)) for c in (rng.choice(PROFILES) for _ in range(n))]
+        ops = []
+        for _ in range(rng.randint(4, 10)):
+            i = rng.randrange(n)
+            ops.append(('attach', i) if rng.random() < 0.4 else rnd_set(i, spec[i][0]))
+        report(spec, ops)
+        ctx.case(key=('attached-random', tuple(kinds(ops))))
+        ctx.count('attached:random')
+
+
 def integrals(ctx):
     """S: cross-section / volume integrals of the real energy density"""
     rng = ctx.rng
     for it in range(ctx.n(8, 300)):
         for cls in ('ConstantBivariateGaussian', 'GaussianBeamAxisymmetric', 'TrivariateGaussian'):
-            args = gen_args(rng, cls)
+            args = specialise(rng, cls, gen_args(rng, cls))
             obj = construct(cls, args)
             # also after a short accepted history (parameters changed through setters)
             hist = []
@@ -906,6 +1189,10 @@ def replay_one(ctx, rep, signature=None):
         why = tiling_violation(segs, rep['radius'], rep['length'])
         if why:
             ctx.fail(signature or 'C18:generate_segmented_cylinder:tiling', why, rep)
+    elif kind == 'attached':
+        bad = attached_play([tuple(x) for x in rep['spec']], [tuple(o) for o in rep['ops']])
+        if bad is not None:
+            ctx.fail(signature or 'C18:Laser:attached->segments-do-not-tile-current-profile', bad[1], rep)
     elif kind == 'spectrum_bins':
         pass        # covered by the seeded stream; parameters are in the replay for manual inspection
     return 'still fails' if len(ctx.failing) + len(ctx.known_hits) > n0 else 'passes now'
@@ -942,15 +1229,23 @@ def run(ctx):
     st = Stream()
     record = dict(traces=0)
     exp = table_uncovered(table)
+    sp_, dflt = special_values(table)
+    SPECIALS.clear()
+    SPECIALS.update(sp_)
+    ctx.extra['special_constructor_values'] = sp_
     ctx.extra['table_entries_failing_their_obligation'] = {k: ['%s.%s' % e for e in v] for k, v in exp.items()}
     erf_stream(ctx, st, record)
     import traceback
-    for name, fn in (('targeted', lambda: targeted(ctx, st, record, exp)), ('histories', lambda: histories(ctx, st, record)),
+    for name, fn in (('targeted', lambda: targeted(ctx, st, record, exp)), ('defaults', lambda: defaults_stream(ctx, st, record, dflt)),
+                     ('histories', lambda: histories(ctx, st, record)), ('attached', lambda: attached_stream(ctx)),
                      ('segments', lambda: segments_stream(ctx, st, record)), ('spectra', lambda: spectra_stream(ctx, st, record, table)),
                      ('integrals', lambda: integrals(ctx))):
         try:
             fn()
-        except Exception:      # the implementation raised where the harness expects it to work: an observation, not an infrastructure error
+        except Exception as e:      # the implementation raised where the harness expects it to work: an observation, not an infrastructure error
+            last = traceback.extract_tb(e.__traceback__)[-1].filename
+            if last.startswith(os.path.join(VERIF, 'harness')):
+                raise               # … unless the exception was born in the harness itself: that is our bug (exit 2)
             ctx.broke('correspondence', 'C18 stream %s: the implementation raised unexpectedly' % name, traceback.format_exc()[-1500:])
     outs = ctx.driver(st.lines)
     ctx.traces = record['traces']
